@@ -11,20 +11,20 @@ import (
 // Budget bounds the deviations from the default execution: P preemptions,
 // S non-first select cases, T timing deviations (early timer firings / KTime
 // choices), F environment faults; Total bounds their sum (0 = no extra bound).
-type Budget struct{ P, S, T, F, Total int }
+type Budget struct{ P, S, T, F, Total, D int }
 
 func (b Budget) String() string {
-	return fmt.Sprintf("P%d.S%d.T%d.F%d/%d", b.P, b.S, b.T, b.F, b.Total)
+	return fmt.Sprintf("P%d.S%d.T%d.F%d.D%d/%d", b.P, b.S, b.T, b.F, b.D, b.Total)
 }
 
-func (b Budget) sum() int { return b.P + b.S + b.T + b.F }
+func (b Budget) sum() int { return b.P + b.S + b.T + b.F + b.D }
 
 func (b Budget) pack() uint32 {
 	return uint32(b.P)<<24 | uint32(b.S)<<16 | uint32(b.T)<<8 | uint32(b.F) | uint32(b.Total)<<28
 }
 
 func dominates(a, b Budget) bool { // a >= b componentwise
-	return a.P >= b.P && a.S >= b.S && a.T >= b.T && a.F >= b.F && a.Total >= b.Total
+	return a.P >= b.P && a.S >= b.S && a.T >= b.T && a.F >= b.F && a.D >= b.D && a.Total >= b.Total
 }
 
 // Scenario is one closed program explored exhaustively within Bound.
@@ -38,6 +38,10 @@ type Scenario struct {
 	// final observation, used to count distinct outcomes.
 	Observe func() uint64
 	NoCache bool
+	// DelayBound makes the choice of a task other than the lowest-numbered enabled one, at a point
+	// where the running task blocked or ended, cost one unit of Bound.D (delay bounding); without it
+	// such choices are free (plain iterative context bounding).
+	DelayBound bool
 }
 
 // Stats are the coverage counters of an exploration.
@@ -84,7 +88,7 @@ type Explorer struct {
 // EngineError is non-empty when the engine itself misbehaved (replay divergence, non-determinism).
 func (e *Explorer) EngineError() string { return e.engineErr }
 
-func cost(p *Point, alt int) Budget {
+func (e *Explorer) cost(p *Point, alt int) Budget {
 	if alt == 0 {
 		return Budget{}
 	}
@@ -95,6 +99,9 @@ func cost(p *Point, alt int) Budget {
 		}
 		if p.CurFirst {
 			return Budget{P: 1}
+		}
+		if e.Sc.DelayBound {
+			return Budget{D: 1}
 		}
 		return Budget{}
 	case KSelect:
@@ -108,12 +115,12 @@ func cost(p *Point, alt int) Budget {
 }
 
 func add(a, b Budget) Budget {
-	return Budget{a.P + b.P, a.S + b.S, a.T + b.T, a.F + b.F, 0}
+	return Budget{a.P + b.P, a.S + b.S, a.T + b.T, a.F + b.F, 0, a.D + b.D}
 }
 
 func (e *Explorer) within(u Budget) bool {
 	b := e.bound
-	if u.P > b.P || u.S > b.S || u.T > b.T || u.F > b.F {
+	if u.P > b.P || u.S > b.S || u.T > b.T || u.F > b.F || u.D > b.D {
 		return false
 	}
 	if b.Total > 0 && u.sum() > b.Total {
@@ -124,7 +131,7 @@ func (e *Explorer) within(u Budget) bool {
 
 func (e *Explorer) remaining(u Budget) Budget {
 	b := e.bound
-	r := Budget{b.P - u.P, b.S - u.S, b.T - u.T, b.F - u.F, 1 << 20}
+	r := Budget{b.P - u.P, b.S - u.S, b.T - u.T, b.F - u.F, 1 << 20, b.D - u.D}
 	if b.Total > 0 {
 		r.Total = b.Total - u.sum()
 	}
@@ -138,7 +145,7 @@ func (e *Explorer) Run() {
 	e.Stats.Distinct = map[uint64]struct{}{}
 	e.Stats.DistinctDev = map[uint64]struct{}{}
 	full := e.Sc.Bound
-	maxTotal := full.P + full.S + full.T + full.F
+	maxTotal := full.P + full.S + full.T + full.F + full.D
 	if full.Total > 0 && full.Total < maxTotal {
 		maxTotal = full.Total
 	}
@@ -257,7 +264,7 @@ func (e *Explorer) explore(prefix []int, used Budget) bool {
 			e.seen[p.FP] = nil
 		}
 		for alt := 1; alt < p.N; alt++ {
-			u := add(used, cost(p, alt))
+			u := add(used, e.cost(p, alt))
 			if !e.withinLevel(u) {
 				continue
 			}
